@@ -7,6 +7,10 @@ handlers whose behaviour tables claim or decline and (in `mutating` histories) c
 focus / steal from inside the handler, places the focus, and then sends key events and press / drag / release /
 wheel sequences at cells on and around window corners, interleaved with top-level tree operations and flushes.
 A DRAG is never sent before the first PRESS of a history (the press memory is uninitialised before: assumption).
+Handlers may be bound one-shot (`ko` / `mo`) and entries may unbind their own binding (`!`); mouse gestures also arrive
+as X10-encoded bytes (`x10`: wheel turns before and inside drags, second buttons, the button-less release, bare motion,
+reports libtermkey cannot classify).  Templates: stack, drag, chain, oneshot (handlers that leave the list they are run
+from and hand the focus over from inside the dispatch), x10 (byte gestures over a small tree).
 
 exhaustive: three fixed trees x every cell of the terminal x {press, wheel, press-drag-release to a second cell} x
 all claim patterns of the handlers (<= 4 handlers), key events under every focus placement x all claim patterns,
@@ -115,13 +119,66 @@ def rand_action(h, self_id):
     count(actmix, k)
     return "%s%d" % (k, w)
 
-def rand_entry(h, self_id, mutating, claim_p):
+def rand_entry(h, self_id, mutating, claim_p, unbind_p=0.0):
     ret = 1 if rng.random() < claim_p else 0
     acts = []
+    if rng.random() < unbind_p:
+        acts.append("!"); count(feat, "self-unbind")
     if mutating and rng.random() < 0.45:
         for _ in range(rng.choice([1, 1, 1, 2, 2, 3])):
             acts.append(rand_action(h, self_id))
     return ",".join([str(ret)] + acts)
+
+def rand_kind(kind, oneshot_p):
+    if rng.random() < oneshot_p:
+        count(feat, "oneshot")
+        return kind + "o"
+    return kind
+
+# X10 button codes (ESC [ M <32+code> ...): button 1..3 = 0..2, release (no button named) = 3, motion +32, wheel 64/65,
+# shift +4, alt +8, ctrl +16
+X10_REL, X10_MOTION = 3, 32
+
+def x10_cell(h):
+    (l, c) = rand_cell(h)
+    return (min(max(l, 0), 93), min(max(c, 0), 93))
+
+def x10_seq(h):
+    """A gesture that arrives as X10 bytes: wheel turns, a press, drags, the button-less release; sometimes a second
+    button goes down in between, sometimes the gesture is cut short or interleaved with emitted events."""
+    count(feat, "x10seq")
+    mod = rng.choice([0, 0, 0, 4, 8, 16, 28])
+    for _ in range(rng.choice([0, 0, 1, 1, 2])):
+        (l, c) = x10_cell(h)
+        emit("x10 %d %d %d" % (rng.choice([64, 65]) + mod, l, c)); count(feat, "x10wheel")
+    if rng.random() < 0.1:
+        return
+    b = rng.choice([0, 0, 1, 2, 2])
+    (l, c) = x10_cell(h)
+    emit("x10 %d %d %d" % (b + mod, l, c)); h.pressed = True
+    for _ in range(rng.choice([0, 1, 1, 2, 3])):
+        x = rng.random()
+        if x < 0.15:
+            (wl, wc) = x10_cell(h)
+            emit("x10 %d %d %d" % (rng.choice([64, 65]), wl, wc)); count(feat, "x10wheel-in-drag")
+        elif x < 0.19:
+            # a report libtermkey cannot classify (horizontal wheel), or bare motion with no button (= release + motion bit)
+            emit("x10 %d %d %d" % (rng.choice([66, 67, 35, 35 + 4]), l, c)); count(feat, "x10odd")
+        elif x < 0.29:
+            emit("x10 %d %d %d" % (rng.choice([0, 1, 2]), l, c)); count(feat, "x10second-button")
+        elif x < 0.36:
+            top_action(h)
+        if rng.random() < 0.4:
+            l, c = min(max(l + rng.choice([-1, 0, 1]), 0), 93), min(max(c + rng.choice([-1, 0, 1]), 0), 93)
+        else:
+            (l, c) = x10_cell(h)
+        emit("x10 %d %d %d" % ((b if rng.random() < 0.85 else rng.choice([0, 1, 2])) + X10_MOTION + mod, l, c))
+    if rng.random() < 0.9:
+        if rng.random() < 0.4:
+            (l, c) = x10_cell(h)
+        emit("x10 %d %d %d" % (X10_REL + mod, l, c))
+        if rng.random() < 0.1:
+            emit("x10 %d %d %d" % (X10_REL, l, c))
 
 def interesting_cells(h):
     cells = []
@@ -186,6 +243,9 @@ def random_history():
     emit("new %d %d" % (L, C))
     mutating = rng.random() < 0.5
     claim_p = rng.choice([0.0, 0.15, 0.3, 0.6])
+    oneshot_p = rng.choice([0.0, 0.0, 0.15, 0.4])
+    unbind_p = rng.choice([0.0, 0.0, 0.1, 0.3])
+    x10_p = rng.choice([0.0, 0.0, 0.3, 0.7, 1.0])
     count(feat, "mutating" if mutating else "static")
     nwin = rng.choice([1, 2, 3, 3, 4, 4, 5, 6, 7])
     for _ in range(nwin):
@@ -219,7 +279,7 @@ def random_history():
                 nh = rng.choice([1, 1, 1, 2, 2, 3, 4])
                 for _ in range(nh):
                     ne = rng.choice([1, 1, 2, 3])
-                    emit("bind %d %s %s" % (w, kind, " ".join(rand_entry(h, w, mutating, claim_p) for _ in range(ne))))
+                    emit("bind %d %s %s" % (w, rand_kind(kind, oneshot_p), " ".join(rand_entry(h, w, mutating, claim_p, unbind_p) for _ in range(ne))))
     # focus / visibility / restack set-up
     for _ in range(rng.choice([0, 1, 1, 2, 3])):
         x = rng.random()
@@ -236,7 +296,8 @@ def random_history():
         if x < 0.40:
             emit("key %d %d" % (rng.choice([1, 2]), rng.choice([0, 0, 1, 2, 4, 5])))
         elif x < 0.80:
-            mouse_seq(h)
+            if rng.random() < x10_p: x10_seq(h)
+            else: mouse_seq(h)
         elif x < 0.93:
             top_action(h)
         elif x < 0.97:
@@ -389,6 +450,97 @@ def chain_history():
             emit("act %s%d" % (a, rng.choice(chain[1:])))
         else: emit("flush")
 
+def oneshot_history():
+    """Handlers that leave the list they are run from: a window (holding the focus, on the focus chain, or reached as
+    "another child") with two to four handlers of one kind, of which the earlier ones are one-shot or unbind
+    themselves and, from inside the dispatch, hand the focus over (to a child, to themselves, to the parent, to a
+    sibling: the window is told it lost / gained the focus while its handlers are still being walked), hide, close or
+    restack; the later handlers must still be offered the event, and a second and third event find the list without
+    the handlers that are gone."""
+    L, C = rng.randint(6, 10), rng.randint(10, 18)
+    emit("new %d %d" % (L, C))
+    count(feat, "template:oneshot")
+    emit("win 0 0 0 2 %d 0" % C)                   # 1: an unrelated sibling
+    emit("win 0 2 1 %d %d 0" % (L - 3, C - 2))     # 2: the dialog
+    emit("win 2 1 1 1 %d 0" % max(1, C - 5))       # 3: its entry field
+    ids = [0, 1, 2, 3]
+    if rng.random() < 0.4:
+        emit("win 2 2 1 1 3 0"); ids.append(4)     # 4: a second child of the dialog
+    actor = rng.choice([2, 2, 2, 3, 1, 0])
+    kind = rng.choice("kkkm")
+    par = {0: None, 1: 0, 2: 0, 3: 2, 4: 2}
+    kids = {0: [1, 2], 1: [], 2: [3] + ([4] if 4 in ids else []), 3: [], 4: []}
+    def focus_target():
+        x = rng.random()
+        if x < 0.35 and kids[actor]: return rng.choice(kids[actor])
+        if x < 0.60: return actor
+        if x < 0.75 and par[actor] is not None: return par[actor]
+        return rng.choice(ids)
+    for w in ids:
+        for k in "km":
+            if w == actor and k == kind:
+                nh = rng.choice([2, 2, 3, 4])
+                leavers = rng.randint(1, nh - 1)
+                for i in range(nh):
+                    if i < leavers:
+                        a = rng.choice("ffffffhcRlsk"); count(actmix, a)
+                        tgt = focus_target() if a == "f" else rng.choice(ids)
+                        act = "%s%d" % (a, tgt)
+                        if rng.random() < 0.25:
+                            a2 = rng.choice("fffh"); count(actmix, a2)
+                            act += ",%s%d" % (a2, focus_target())
+                        if rng.random() < 0.6:
+                            count(feat, "oneshot")
+                            emit("bind %d %so 0,%s 0" % (w, k, act))
+                        else:
+                            count(feat, "self-unbind")
+                            emit("bind %d %s 0,!,%s 0" % (w, k, act))
+                    else:
+                        emit("bind %d %s %d" % (w, k, 1 if rng.random() < 0.5 else 0))
+            elif rng.random() < 0.8:
+                emit("bind %d %s %d" % (w, rand_kind(k, 0.15), 1 if rng.random() < 0.15 else 0))
+    x = rng.random()
+    if x < 0.5: emit("act f%d" % actor); count(feat, "focus-setup")
+    elif x < 0.8: emit("act f%d" % rng.choice(ids)); count(feat, "focus-setup")
+    if rng.random() < 0.5: emit("flush")
+    for _ in range(rng.randint(2, 4)):
+        if kind == "k":
+            emit("key %d 0" % rng.choice([1, 2]))
+        else:
+            x = rng.random()
+            if x < 0.5: emit("mouse %d 1 3 2 0" % rng.choice([1, 4]))
+            elif x < 0.75: emit("x10 %d 3 2" % rng.choice([0, 64]))
+            else: emit("mouse 1 1 3 2 0"); emit("mouse 2 1 3 3 0"); emit("mouse 3 1 3 3 0")
+        if rng.random() < 0.2:
+            emit("act f%d" % rng.choice(ids))
+
+def x10_history():
+    """Mouse gestures that arrive as X10-encoded bytes over a small tree: wheel turns before and inside a drag, presses
+    of every button, drags across windows, the button-less release (whose button the terminal has to supply from its
+    record of held buttons), second buttons, bare motion reports, releases with nothing held."""
+    L, C = rng.randint(6, 10), rng.randint(10, 20)
+    h = Hist(L, C)
+    emit("new %d %d" % (L, C))
+    count(feat, "template:x10")
+    wins = [(0, (0, 0, L // 2, C), 0), (0, (L // 2, 0, L - L // 2, C), 0)]
+    if rng.random() < 0.5: wins.append((1, (0, 1, 2, 4), 0))
+    if rng.random() < 0.3: wins.append((0, (1, 2, 3, 3), rng.choice([0, 8, 1])))
+    for (p, r, f) in wins:
+        wid = h.n()
+        emit("win %d %d %d %d %d %d" % ((p,) + r + (f,)))
+        h.par[wid] = p; h.rect[wid] = r; h.kids[wid] = []; h.kids[p].insert(0, wid)
+    claim_p = rng.choice([0.0, 0.3, 0.8, 1.0])
+    for w in list(h.par.keys()):
+        if rng.random() < 0.85:
+            for _ in range(rng.choice([1, 1, 2])):
+                emit("bind %d %s %s" % (w, rand_kind("m", 0.1), " ".join(rand_entry(h, w, rng.random() < 0.15, claim_p) for _ in range(rng.choice([1, 2])))))
+    if rng.random() < 0.5: emit("flush")
+    for _ in range(rng.randint(2, 4)):
+        x = rng.random()
+        if x < 0.85: x10_seq(h)
+        elif x < 0.93: mouse_seq(h)
+        else: top_action(h)
+
 # ----------------------------------------------------------------------------------------------- exhaustive
 def exhaustive():
     nh = 0
@@ -443,8 +595,44 @@ def exhaustive():
                         else:
                             emit("mouse 1 1 2 2 0"); emit("mouse 2 1 2 3 0"); emit("mouse 2 1 0 0 0"); emit("mouse 3 1 1 1 0"); emit("flush")
                             emit("mouse 1 1 1 1 0")
+    # handlers that leave the list from inside the dispatch: the first handler of a window is one-shot (or unbinds
+    # itself) and performs one action on one target, a second handler follows it; key and mouse
+    for hw in range(nw):
+        for act in ACTS:
+            for tw in range(nw):
+                for how in ("o", "!"):
+                    for kind in "km":
+                        emit("new 5 8"); nh += 1
+                        for (p, r, f) in tree:
+                            emit("win %d %d %d %d %d %d" % ((p,) + r + (f,)))
+                        for w in range(nw):
+                            if w == hw:
+                                if how == "o": emit("bind %d %so 0,%s%d" % (w, kind, act, tw))
+                                else: emit("bind %d %s 0,!,%s%d" % (w, kind, act, tw))
+                                emit("bind %d %s 0" % (w, kind))
+                            else: emit("bind %d %s 0" % (w, kind))
+                        if kind == "k":
+                            if tw % 2 == 0: emit("act f%d" % hw)
+                            emit("key 2 0"); emit("key 2 0")
+                        else:
+                            emit("mouse 1 1 2 2 0"); emit("mouse 2 1 2 3 0"); emit("mouse 3 1 1 1 0")
+    # X10 byte input: every sequence of four reports over {wheel up, wheel down, press 1, press 3, drag 1, drag 3},
+    # then the button-less release, twice
+    alphabet = [64, 65, 0, 2, 32, 34]
+    cells = [(1, 1), (2, 3), (3, 5), (0, 7)]
+    for seq in itertools.product(alphabet, repeat=4):
+        emit("new 5 8"); nh += 1
+        for (p, r, f) in tree:
+            emit("win %d %d %d %d %d %d" % ((p,) + r + (f,)))
+        for w in range(nw):
+            emit("bind %d m %d" % (w, 1 if w == 2 else 0))
+        for code, (l, c) in zip(seq, cells):
+            emit("x10 %d %d %d" % (code, l, c))
+        emit("x10 3 3 6"); emit("x10 3 3 6")
     return {"exhaustive_bound": "3 fixed trees x every cell (incl. one ring outside) x press/wheel/drag/release x all claim patterns of <=4 handlers; "
-            "key events x every focus placement x all claim patterns; every single action x target from inside every handler of a 5-window tree (key and mouse)",
+            "key events x every focus placement x all claim patterns; every single action x target from inside every handler of a 5-window tree (key and mouse); "
+            "the same from inside a one-shot / self-unbinding first handler followed by a second one; every sequence of four X10 reports over "
+            "{wheel up/down, press 1/3, drag 1/3} followed by two button-less releases",
             "histories": nh}
 
 info = {}
@@ -454,10 +642,12 @@ else:
     H = 1500 if a.tier == "quick" else 10000
     for _ in range(H):
         x = rng.random()
-        if x < 0.62: random_history()
-        elif x < 0.77: stack_history()
-        elif x < 0.88: drag_history()
-        else: chain_history()
+        if x < 0.52: random_history()
+        elif x < 0.64: stack_history()
+        elif x < 0.73: drag_history()
+        elif x < 0.82: chain_history()
+        elif x < 0.91: oneshot_history()
+        else: x10_history()
     info = {"histories": H}
 open(a.out, "w").write("\n".join(lines) + "\n")
 info.update({"ops": len(lines), "mix": mix, "handler_actions": actmix, "features": feat})
